@@ -199,6 +199,8 @@ def rctl (cfg : Cfg) (x : Reader) : Ctl → Reader
     else if x.udp then { x with status := .gone, disc := x.disc ++ x.queue.map Frame.deliv, queue := [] }
     else { x with status := .gone, disc := x.disc ++ (x.wire ++ x.queue).map Frame.deliv, queue := [], wire := [] }
   | .consume =>
+    -- (`Pull` returns false once the ring is closed: nothing is popped after `pclose`)
+    if x.status != .playing then x else
     match x.queue with
     | [] => x
     | f :: q => { x with queue := q, wire := x.wire ++ [f] }
